@@ -443,6 +443,15 @@ def run(ck: Check):
         elif kind == "instance-forward_python":
             plain = l.forward_python
             l.forward_python = lambda x: 1.0 - plain(x)
+        elif kind == "wiring-longer-than-gates":
+            l1 = _LD14(4, 1, device="cpu", weight_init="random")
+            l1.indices = (torch.tensor([0, 1, 2, 3, 0, 2]), torch.tensor([1, 2, 3, 0, 2, 1]))     # one gate row broadcast over six pairs
+            return torch.nn.Sequential(l1, _GS(2, 1.0, device="cpu")), (4,)
+        elif kind == "container-overrides-call":
+            class _CallSeq(torch.nn.Sequential):
+                def __call__(self, x):
+                    return 4 - super().__call__(x)
+            return _CallSeq(l, _GS(2, 1.0, device="cpu")), (5,)
         elif kind == "groupsum-tau-negative-later":
             m[-1].tau = -1.0                 # the model then raises on every input: there is no eval function to compile
         elif kind == "groupsum-k-zero-later":
@@ -457,7 +466,7 @@ def run(ck: Check):
     import torch.nn.modules.module as _tm
     for kind in ("subclass-forward_python", "subclass-level-weights", "instance-forward", "layer-hook", "layer-pre-hook", "container-hook",
                  "container-instance-forward", "instance-forward_python", "instance-level-weights", "global-forward-hook",
-                 "groupsum-tau-negative-later", "groupsum-k-zero-later"):
+                 "groupsum-tau-negative-later", "groupsum-k-zero-later", "wiring-longer-than-gates", "container-overrides-call"):
         case = {"kind": "modified-layer", "how": kind}
         ck.case(case, nontrivial=True, kind="modified-layer")
         model, shp = _mk_conv_patched() if kind == "instance-level-weights" else _mk("plain" if kind == "global-forward-hook" else kind)
